@@ -67,7 +67,40 @@ def main():
         tb = traceback.format_exc()
         print(tb)
         proof['broken'].append('harness error: ' + tb[-800:])
+    try:
+        run_witnesses(ctx)
+    except Exception:
+        tb = traceback.format_exc()
+        print(tb)
+        proof['broken'].append('harness error (witnesses): ' + tb[-800:])
     return ctx.finish(proof)
+
+
+def run_witnesses(ctx):
+    """Listed findings that carry a witness program (findings/<id>.py: exits 1 and prints the violation when it
+    reproduces on the tree under test, 0 when it does not): each is replayed on every run.  A witness that
+    reproduces is reported as its KNOWN-FINDING; one that no longer does is silent (the defect has gone);
+    a witness that crashes is a harness error, not a finding."""
+    import subprocess
+    env = dict(os.environ, PYTHONPATH=lib.REPO, PYTHONHASHSEED='0', PYTHONDONTWRITEBYTECODE='1')
+    ran = {}
+    for f in ctx.known:
+        w = f.get('witness_script')
+        if not w:
+            continue
+        path = os.path.join(lib.VERIF, 'findings', w)
+        tmpd = os.path.join(lib.WORK, 'tmp')
+        os.makedirs(tmpd, exist_ok=True)
+        p = subprocess.run([lib.PY, path], cwd=tmpd, env=dict(env, TMPDIR=tmpd), stdout=subprocess.PIPE,
+                           stderr=subprocess.STDOUT, text=True, errors='replace', timeout=600)
+        ran[f['id']] = p.returncode
+        ctx.count(('witness', f['id']), True)
+        if p.returncode == 1 and 'VIOLATED' in p.stdout:
+            ctx.known_hits[f['id']] = ctx.known_hits.get(f['id'], 0) + 1
+        elif p.returncode != 0:
+            raise RuntimeError('witness %s ended with status %s: %s' % (w, p.returncode, p.stdout[-400:]))
+    if ran:
+        ctx.extra['witness_programs'] = ran
 
 
 if __name__ == '__main__':
